@@ -35,6 +35,10 @@ Definition pick {A} (l : list A) (idx : list nat) : list A :=
 
 (* ---- membrane cases ----------------------------------------------------- *)
 
+(* export_antibodies(): the held signatures in dict order (a re-learned text keeps
+   its place, a forgotten and re-learned one goes to the end) *)
+Definition exported (st : mstate) : list Z := map s_id (m_learned st).
+
 Definition mobs (st : mstate) (o : option mresult) : list (list Z) :=
   match o with
   | Some r =>
@@ -42,7 +46,8 @@ Definition mobs (st : mstate) (o : option mresult) : list (list Z) :=
           Z.of_nat (length (m_learned st)); Z.of_nat (length (m_blocked st)) ];
         ids (r_matched r) ]
   | None =>
-      [ [ -1; Z.of_nat (length (m_audit st)); Z.of_nat (length (m_learned st)); m_threshold st ] ]
+      [ [ -1; Z.of_nat (length (m_audit st)); Z.of_nat (length (m_learned st)); m_threshold st ];
+        exported st ]
   end.
 
 Fixpoint mrun_obs (cfg : mconfig) (st : mstate) (ops : list mop) : list (list Z) :=
@@ -77,12 +82,13 @@ Definition sobs (sys : msys) (o : sop) (r : option (nat * mresult)) : list (list
                   m_nblocked st; Z.of_nat (length (m_learned st)); Z.of_nat (length (m_blocked st)) ];
                 ids (r_matched x) ]
           | None => [ [ -1; Z.of_nat i; Z.of_nat (length (m_audit st)); Z.of_nat (length (m_learned st));
-                        m_threshold st ] ]
+                        m_threshold st ];
+                      exported st ]
           end
       end
   | STransfer _ d =>
       match nth_error sys d with
-      | Some m => [ [ -5; Z.of_nat d; Z.of_nat (length (m_learned (mb_st m))) ] ]
+      | Some m => [ [ -5; Z.of_nat d; Z.of_nat (length (m_learned (mb_st m))) ]; exported (mb_st m) ]
       | None => [ [ -9 ] ]
       end
   | STickAll _ => [ [ -6 ] ]
